@@ -50,23 +50,29 @@ Fixpoint join_ext (other:ext) (self:fields_t) {struct other} : res fields_t :=
   end.
 
 (* ---------- scope_extract.__phil_set__(name, optional, multiple, value).
-   value = None stands for the marker class scope_extract_is_disabled. *)
+   value = None stands for the marker class scope_extract_is_disabled.
+   Non-multiple: a disabled object leaves an existing attribute alone (else it supplies the placeholder None).
+   Multiple: a missing attribute, or the placeholder None left by a disabled namesake, becomes a fresh list. *)
 Definition phil_set (fs:fields_t) (name:str) (optional:aval) (multiple:bool) (value:option pyval) : res fields_t :=
   if has_dot name then Crash (s_ "AssertionError") else
   match getattr fs name with
   | LBuiltin => unmodelled "parameter named like an attribute of scope_extract"
   | node =>
     if negb multiple then
-      let v := match value with None => VNone | Some v => v end in
-      match node, v with
-      | LField (VScope (Ext n sf)), VScope oe => do sf' <- join_ext oe sf; Ok (fset name (VScope (Ext n sf')) fs)
-      | _, _ => Ok (fset name v fs)
+      match value, node with
+      | None, LField _ => Ok fs                              (* disabled, attribute exists: return *)
+      | _, _ =>
+        let v := match value with None => VNone | Some v => v end in
+        match node, v with
+        | LField (VScope (Ext n sf)), VScope oe => do sf' <- join_ext oe sf; Ok (fset name (VScope (Ext n sf')) fs)
+        | _, _ => Ok (fset name v fs)
+        end
       end
     else
       let '(fs1, nodev) :=
         match node with
+        | LField VNone | LMissing | LBuiltin => (fset name (VScopeList optional []) fs, VScopeList optional [])
         | LField x => (fs, x)
-        | _ => (fset name (VScopeList optional []) fs, VScopeList optional [])
         end in
       match value with
       | None => Ok fs1
